@@ -3,7 +3,7 @@ import vlib, simcommon
 
 PROP = "C10"
 PROPS_FILE = "props/C10.v"
-COQ_FILES = ["gen/Gen.v", "proofs/SnaProofs.v", "model/Sender.v", "proofs/SenderProofs.v", "props/C10.v"]
+COQ_FILES = ["gen/Gen.v", "proofs/SnaProofs.v", "model/Sender.v", "proofs/SenderProofs.v", "proofs/SenderGrowth.v", "props/C10.v"]
 TRUSTED_BASE = [
     "Coq 8.16.1 kernel; vm_compute only in Examples / witnesses; no native_compute",
     "hand-written model coq/model/Sender.v of association.go (handleSack, processSelectiveAck, onCumulativeTSNAckPointAdvanced, "
@@ -19,7 +19,8 @@ ASSUMPTIONS = [
 ]
 LEVEL_TEXT = ("Coq theorems over all histories of SACKs with arbitrary contents, T3 expiries, writes and gathers: every first "
               "transmission is within cwnd and within the last advertised a_rwnd or is the lone probe; cwnd floor through every "
-              "SACK/T3; fragment and packet size bounds from the generated maxPayloadSizeForMTU. The model is tied to the code by "
+              "SACK/T3 and the growth law of a SACK (no growth without an advancing ack point and waiting data; at most cwnd in slow "
+              "start, at most max(MTU, cwndCAStep) in congestion avoidance); fragment and packet size bounds from the generated maxPayloadSizeForMTU. The model is tied to the code by "
               "step-commuting records from simulated associations: every field of the projection (cwnd, rwnd, ssthresh, "
               "partial_bytes_acked, fast-recovery flags, miss indicators, per-chunk state, byte counters) is compared after every "
               "SACK / write / T3 event, and every chunk the implementation moves must be admitted by the model.")
